@@ -660,6 +660,37 @@ class CallMixin:
             star = m.endswith(".*")
             contents = m.endswith("[]")
             node = ast.parse(m[:-2] if (star or contents) else m, mode="eval").body
+            if contents and isinstance(node, ast.Subscript) and isinstance(node.slice, ast.Name) and node.slice.id in env:
+                # p.f[key][] : the contents of the list / dict stored under `key` in the dict held in p.f
+                inner_cells = self.modifies_cells([ast.unparse(node.value) + "[]"], env, st)
+                dcell = inner_cells[0]             # ("cell", map key of the outer dict, sort, ref of the outer dict, False)
+                okey = dcell[1]
+                outer_map = st.read(okey, dcell[2], dcell[3])
+                kv = env[node.slice.id]
+                cell = z3.Select(outer_map, kv.t)
+                # element type of the outer dict from its map key name is not recoverable here: use the field's declared type
+                chain0, base0 = [], node.value
+                while isinstance(base0, ast.Attribute):
+                    chain0.append(base0.attr)
+                    base0 = base0.value
+                chain0.reverse()
+                obj0 = env[base0.id]
+                cls0 = (obj0.ty.args[0] if obj0.ty.name != "Opt" else obj0.ty.args[0].args[0])
+                fty0 = None
+                for f in chain0:
+                    fty0 = self.field_type(cls0, f)
+                    cls0 = fty0.args[0] if fty0.name == "Obj" else cls0
+                ety = fty0.args[0] if fty0 is not None and fty0.name == "Dict" else None
+                if ety is None or ety.name not in ("List", "Dict"):
+                    raise EngineError(f"modifies {m}: the dict's values are not lists or dicts")
+                ref = opt_sort(sort_of(ety)).val(cell)
+                if ety.name == "List":
+                    out.append(("cell", "List.len", I, ref, False))
+                    out.append(("cell", self._items_key(ety.args[0]), z3.ArraySort(I, sort_of(ety.args[0])), ref, False))
+                else:
+                    vty = ety.args[0] or JV
+                    out.append(("cell", self._map_key(vty), z3.ArraySort(S, opt_sort(sort_of(vty)).sort), ref, False))
+                continue
             chain = []
             base = node
             while isinstance(base, ast.Attribute):
